@@ -181,3 +181,129 @@ func TestRSchedPrimitiveSlotsAreReused(t *testing.T) {
 	}
 	_ = ovf // more than 4096 tasks in total: later ones run inline, which is fine here
 }
+
+// chanWorkload: an unbuffered job channel with three workers, a buffered semaphore, a
+// results channel, close + range, and a "done" channel closed to release waiters.
+func chanWorkload(id int, out []int) {
+	jobs := make(chan int)
+	results := make(chan int, 2)
+	sem := make(chan struct{}, 2)
+	done := make(chan struct{})
+	var wg sync.WaitGroup
+	for w := 0; w < 3; w++ {
+		WGAdd(1, &wg, 1)
+		Go(2, func() {
+			defer WGDone(3, &wg)
+			for {
+				j, ok := ChanRecv2(4, jobs)
+				if !ok {
+					break
+				}
+				ChanSend(5, sem, struct{}{})
+				ChanSend(6, results, j*j)
+				ChanRecv(7, sem)
+			}
+			ChanRecv(8, done) // released by close
+		})
+	}
+	sum := 0
+	Go(9, func() {
+		for i := 1; i <= 6; i++ {
+			ChanSend(10, jobs, i)
+		}
+		ChanClose(11, jobs)
+	})
+	for i := 0; i < 6; i++ {
+		sum += ChanRecv(12, results)
+	}
+	ChanClose(13, done)
+	WGWait(14, &wg)
+	out[id] = sum
+}
+
+func TestChannelsUnderBothSchedulers(t *testing.T) {
+	Active = true
+	defer func() { Active = false }()
+	for seed := uint64(1); seed <= 60; seed++ {
+		rng := NewRand(seed)
+		out := make([]int, 2)
+		// lane R
+		rs := NewRSched(rng)
+		for k := 0; k < 2; k++ {
+			k := k
+			rs.AddTask(func() { chanWorkload(k, out) }, NewAscOrder())
+		}
+		for i := 0; i < 10; i++ {
+			rs.PreemptGlobalAt(rng.Intn(200))
+			rs.PreemptAt(PKey{Task: rng.Intn(2), Class: 1, Idx: rng.Intn(40)})
+		}
+		if !rs.Run(20 * time.Second) {
+			t.Fatal("lane R stalled, seed ", seed)
+		}
+		if _, _, _, dl, _, _ := rs.Stats(); dl || out[0] != 91 || out[1] != 91 {
+			t.Fatal("lane R: deadlock or wrong sums", dl, out, seed)
+		}
+		// lane A
+		out = make([]int, 2)
+		s := NewSched(rng)
+		for k := 0; k < 2; k++ {
+			k := k
+			s.AddTask(func() { chanWorkload(k, out) }, NewAscOrder())
+		}
+		for i := 0; i < 10; i++ {
+			s.PreemptGlobal[rng.Intn(200)] = true
+			s.PreemptAt[PKey{Task: rng.Intn(2), Class: 1, Idx: rng.Intn(40)}] = true
+		}
+		if !s.Run(20 * time.Second) {
+			t.Fatal("lane A stalled, seed ", seed)
+		}
+		if s.Deadlock || out[0] != 91 || out[1] != 91 {
+			t.Fatal("lane A: deadlock or wrong sums", s.Deadlock, out, seed)
+		}
+	}
+}
+
+// A package-level style worker pool: the workers outlive the calls. All caller tasks finish,
+// the workers stay blocked on the job channel: the end of the run, not a deadlock.
+func TestWorkersLeftBehindAreNotADeadlock(t *testing.T) {
+	Active = true
+	defer func() { Active = false }()
+	for _, lane := range []string{"R", "A"} {
+		jobs := make(chan int)
+		res := make(chan int, 8)
+		caller := func() {
+			for w := 0; w < 2; w++ {
+				Go(1, func() {
+					for {
+						j := ChanRecv(2, jobs)
+						ChanSend(3, res, j+1)
+					}
+				})
+			}
+			ChanSend(4, jobs, 1)
+			ChanSend(5, jobs, 2)
+			if a, b := ChanRecv(6, res), ChanRecv(7, res); a+b != 5 {
+				panic("wrong answers")
+			}
+		}
+		if lane == "R" {
+			rs := NewRSched(NewRand(3))
+			rs.AddTask(caller, NewAscOrder())
+			if !rs.Run(10 * time.Second) {
+				t.Fatal("stalled")
+			}
+			if _, _, _, dl, _, _ := rs.Stats(); dl || rs.Leftover != 2 {
+				t.Fatal("lane R: ", dl, rs.Leftover)
+			}
+		} else {
+			s := NewSched(NewRand(3))
+			s.AddTask(caller, NewAscOrder())
+			if !s.Run(10 * time.Second) {
+				t.Fatal("stalled")
+			}
+			if s.Deadlock || s.Leftover != 2 {
+				t.Fatal("lane A: ", s.Deadlock, s.Leftover)
+			}
+		}
+	}
+}
